@@ -102,6 +102,9 @@ def make_harness(kind, shape, nds, named, nops, few_verbs=False):
 
 
 HISTORY_PAIRS = [(1e-5, 4e-5), (4e-5, 1e-5), (0.01, 0.01003), (0.05, 0.0500001), (1e-3, 1.4e-3), (0.01, 0.0100000001)]
+HISTORY_PAIRS_THOROUGH = HISTORY_PAIRS + [(0.05, 0.0504), (0.0504, 0.05), (1e-9, 3e-9), (0.1, 0.14), (0.3, 0.3000001), (1e-3, 1e-3 * (1 + 2**-30)),
+                                          (0.02, 0.0249), (0.5, 0.45), (1e-12, 1e-13)]
+WIDE = False
 
 
 def history_harness(ex):
@@ -115,7 +118,8 @@ def history_harness(ex):
     from valjean.gavroche.stat_tests.bonferroni import TestBonferroni, TestHolmBonferroni
     from valjean.javert.representation import Representation, FullTableRepresenter
     from valjean.javert.verbosity import Verbosity
-    a0, a1 = HISTORY_PAIRS[ex.choice(len(HISTORY_PAIRS), 'alpha-pair')]
+    pairs = HISTORY_PAIRS_THOROUGH if WIDE else HISTORY_PAIRS
+    a0, a1 = pairs[ex.choice(len(pairs), 'alpha-pair')]
     ndf = [None, 20, 3][ex.choice(3, 'ndf')]
     tv = np.arange(1, 121) * 0.05
     err = np.full_like(tv, np.sqrt(0.5))
@@ -185,7 +189,9 @@ def _job_draw(timeout_ms, seed=0):
     return run_sym('x', draw_harness, timeout_ms=timeout_ms, seed=seed, require_checks=['draw:leaves-verdict-statistics-and-inputs-unchanged'])
 
 
-def _job_history(timeout_ms, seed=0):
+def _job_history(timeout_ms, seed=0, wide=False):
+    global WIDE
+    WIDE = wide
     return run_sym('x', history_harness, timeout_ms=timeout_ms, seed=seed, require_checks=['evaluation-does-not-depend-on-what-was-evaluated-before'])
 
 
@@ -213,7 +219,7 @@ def jobs(tier):
             # sequences of three operations, lowest / highest verbosity only
             out.append((f'{kind}-1d-n1-named-ops3-fewverbs', _job,
                         dict(kind=kind, shape='1d', nds=1, named=True, nops=3, timeout_ms=20000, few_verbs=True)))
-    out.append(('history-student', _job_history, dict(timeout_ms=20000)))
+    out.append(('history-student', _job_history, dict(timeout_ms=20000, wide=(tier == 'thorough'))))
     out.append(('draw-plots', _job_draw, dict(timeout_ms=20000)))
     return out
 
@@ -222,6 +228,8 @@ def replay(rp):
     if rp['job'] == 'draw-plots':
         return replay_sym(draw_harness, rp['inputs'])
     if rp['job'] == 'history-student':
+        global WIDE
+        WIDE = True          # the thorough pool extends the quick one: indices agree
         return replay_sym(history_harness, rp['inputs'])
     for j in jobs('thorough') + jobs('quick'):
         if j[0] == rp['job']:
